@@ -5,6 +5,7 @@ import DeepModel.Props.C10
 #print axioms C10.c10_invisible
 #print axioms C10.c10_rejected_prefix
 #print axioms C10.c10_later_true_hit_fires
+#print axioms C10.c10_every_kind_gated
 #print axioms C10.c10_limits_first
 #print axioms C10.c10_eval_count
 #print axioms C10.c10_unasked_irrelevant
